@@ -54,12 +54,20 @@ def nontrivial(trace):
 
 
 def run_seq_check(prop, tier, seed, profiles, oracle, n_quick, n_thorough, assumptions,
-                  corpus=("seq/*.scn",), known_classifier=None, extra_front=None):
+                  corpus=("seq/*.scn",), known_classifier=None, extra_front=None, stage_of=None):
     """profiles: list of (weight, profile dict). oracle(scen_text, impl_trace) -> list of failure strings.
-    known_classifier(scen_text, impl_trace, failure) -> finding id or None."""
-    chk = vlib.Check(prop, tier, seed)
-    st = vlib.standard_front(chk)
-    chk.assumptions = assumptions
+    known_classifier(scen_text, impl_trace, failure) -> finding id or None.
+    stage_of = (chk, st): run as a further stage of a check whose front already ran (its coverage is kept under `first_stage`)."""
+    if stage_of:
+        chk, st = stage_of
+        if chk.violations:
+            return chk.finish()
+        chk.cov = {"first_stage": dict(chk.cov)}
+        chk.assumptions = list(chk.assumptions) + list(assumptions)
+    else:
+        chk = vlib.Check(prop, tier, seed)
+        st = vlib.standard_front(chk)
+        chk.assumptions = assumptions
     if not (st.get("harness_ok") and st.get("model_ok")):
         what = "harness build failed" if not st.get("harness_ok") else "model build failed"
         chk.violation("build", "correspondence broken: %s\n%s\n%s\n(proof status: %s)" %
@@ -98,10 +106,11 @@ def run_seq_check(prop, tier, seed, profiles, oracle, n_quick, n_thorough, assum
             failures.append((sid, f))
         # the oracle must also accept the model's own trace (theorem side); a failure there is an oracle/model problem
     missing = [sid for sid in by_id if sid not in res]
+    prev = chk.cov.get("first_stage", {})
     chk.cov.update({
-        "evaluations": len(scens),
-        "distinct_nontrivial": len(hashes),
-        "traces_validated_against_impl": len(res) - len(diverged),
+        "evaluations": len(scens) + int(prev.get("evaluations", 0)),
+        "distinct_nontrivial": len(hashes) + int(prev.get("distinct_nontrivial", 0)),
+        "traces_validated_against_impl": len(res) - len(diverged) + int(prev.get("traces_validated_against_impl", 0)),
         "rule": "corpus scenarios (%d) + seeded structured random scenarios from py/gen_seq.py (profiles per property); a scenario is "
                 "non-trivial when its implementation trace has a callback and an operation result; distinct by trace hash" % ncorpus,
         "model_impl_divergences": len(diverged),
